@@ -243,6 +243,8 @@ def make_phase(name, beh, ctx):
       if run_if == 'once':     # a one-shot gate: true the first time it is asked, false afterwards
         k = ctx.counts['runif:' + name] = ctx.counts.get('runif:' + name, 0) + 1
         return k == 1
+      if run_if in ('none', 'zero', 'empty'):     # falsy verdicts that are not the object False
+        return {'none': None, 'zero': 0, 'empty': ''}[run_if]
       return run_if == 'true'
     kw['run_if'] = run_if_fn
   kw.update(opts)
@@ -309,6 +311,12 @@ def make_test_diag(idx, d, ctx):
       return None
     # 'TFok' = the result value TF reported as a non-failure diagnosis
     return dl.Diagnosis(getattr(R, d[:2]), 'descr', is_failure=(d == 'TF'))
+
+  if d == 'TFgen':
+    # the same failure diagnosis, handed back by a generator (a one-shot iterable)
+    def run(test_record, store):  # pylint: disable=function-redefined
+      ctx.calls.append(('tdiag', idx))
+      yield dl.Diagnosis(R.TF, 'descr', is_failure=True)
 
   run.__name__ = 'tdiag_%d' % idx
   return dl.TestDiagnoser(R, name=run.__name__)(run)
